@@ -666,6 +666,40 @@ func main() {
 		def("mux_run_closes_dropped", "bool", coqBool(closes), "mux_broker.go Run: the default branch of the park select closes the stream")
 	}
 
+	// ---- resource release wiring (C18)
+	{
+		callsIn := func(fn ast.Node, name string, deferredOnly bool) bool {
+			found := false
+			if fn == nil {
+				return false
+			}
+			ast.Inspect(fn, func(n ast.Node) bool {
+				if deferredOnly {
+					ds, ok := n.(*ast.DeferStmt)
+					if !ok {
+						return true
+					}
+					ast.Inspect(ds, func(m ast.Node) bool {
+						if ce, ok := m.(*ast.CallExpr); ok && exprString(ce.Fun) == name {
+							found = true
+						}
+						return true
+					})
+					return true
+				}
+				if ce, ok := n.(*ast.CallExpr); ok && exprString(ce.Fun) == name {
+					found = true
+				}
+				return true
+			})
+			return found
+		}
+		def("res_serve_defers_listener_close", "bool", coqBool(callsIn(serve, "listener.Close", true)), "server.go Serve: a deferred function closes the listener")
+		def("res_muxer_closes_wrapped_listener", "bool", coqBool(callsIn(findFunc(smux, "GRPCServerMuxer", "Close"), "m.ln.Close", false)), "grpc_server_muxer.go Close: closes the listener it wraps")
+		def("res_accept_and_serve_closes_listener", "bool", coqBool(callsIn(findFunc(grpcb, "GRPCBroker", "AcceptAndServe"), "ln.Close", true)), "grpc_broker.go AcceptAndServe: defer ln.Close()")
+		def("res_kill_removes_socket_dir", "bool", coqBool(callsIn(kill, "os.RemoveAll", false)), "client.go Kill: removes the custom runner's socket directory")
+	}
+
 	// ---- TLS wiring under AutoMTLS (C12)
 	{
 		tlsLit := func(fn ast.Node, key, val string) bool { // a tls.Config composite literal with key: val
